@@ -10,6 +10,21 @@ CLAIMED = {
    text="Generated-input search for a text on which parse() panics, loops (deterministic fuel verdict), or renders no error; enumerates every pair/triple of token classes, then ~1.5M (quick) soup/mutant/deep-chain texts per profile. Exploration: finds counterexamples, never proves absence.",
    note="trusts the parse-fuel bound 500x(len+10) as 'does not terminate'; rustc/std; proptest",
    ref="5/C01"),
+ "C02": dict(
+   technique="property-based testing: round trip generated tree -> rendered text (random spelling tape) -> parse -> tree, three spellings per tree, both profiles",
+   text="Grammar-directed generator of syntax trees (all 18 statement kinds, precedence levels, list operands, calls, subscripts, poetic forms, nested blocks) x a spelling tape choosing aliases, case, optional words, separators, noise, comments, layout; the parsed tree must equal the generated one for the canonical and two random spellings. 60k trees x 3 spellings per profile (quick).",
+   note="the generator encodes which trees rrss's greedy grammar can express (DESIGN 1.3, Appendix B); a wrong exclusion would show as a rejected rendering, i.e. an alarm to triage, not a silent pass",
+   ref="5/C02"),
+ "C03": dict(
+   technique="property-based testing: differential against an independent reference interpreter; exhaustive operator x 45-value-universe table sweep plus random nested expressions",
+   text="Every cell of every operator table over a 45-value universe (all kinds and boundaries) is executed and compared with the reference model through a kind-separating probe triple (exhaustive for that universe), then 300k random nested expressions in seven statement positions (quick).",
+   note="reference model transcribed from the language rules (DESIGN Appendix A) and validated cell by cell; std f64 formatting/parsing trusted; error kinds not compared",
+   ref="5/C03"),
+ "C14": dict(
+   technique="property-based testing: metamorphic/algebraic laws between runs of rrss, exhaustive over all ordered pairs of the value universe plus random pairs",
+   text="For all 2025 ordered pairs of the universe (exhaustive) and 100k random pairs (quick): symmetry of is, isnt/is not/ain't = negation, < vs >, <= vs >= incl. error symmetry, (<= and >=) = is when ordered, not/and/or/nor vs truthiness observed by if, compound assignment = expansion, build^n knock^n restores; both as programs and through Val's public methods. No model involved.",
+   note="restoration by build/knock is only demanded where every intermediate sum is exactly representable (integers, dyadic fractions; not -0), otherwise IEEE rounding decides, not rrss",
+   ref="5/C14"),
  "C12": dict(
    technique="property-based testing: validity predicate over the token stream (slices, gaps, line/column) computed from the source alone, on token-soup texts, both profiles",
    text="Every generated text is lexed and each token checked against a predicate derived from the source only (sub-slice, order, ignorable gaps, start/end line+byte column, payload = spelling, keyword class = alias table). ~1.5M texts per profile in the quick tier.",
